@@ -282,6 +282,14 @@ class SpecMixin:
         f = n.func.id if isinstance(n.func, ast.Name) else None
         if f in ("forall", "exists"):
             return self.sp_quant(n, st, env, ctx, f == "forall")
+        if f in ("forall_key", "exists_key"):
+            # quantification over ALL keys of the (abstract, totally ordered) key type
+            lam = n.args[0]
+            kv = fresh(lam.args.args[0].arg, KS)
+            e2 = dict(env)
+            e2[lam.args.args[0].arg] = SV("K", kv)
+            body = self.as_bool(st, self.sp(lam.body, st, e2, ctx))
+            return mk_bool(z3.ForAll([kv], body) if f == "forall_key" else z3.Exists([kv], body))
         if f == "old":
             pre = ctx.pre
             e = dict(pre.env)
